@@ -34,14 +34,14 @@ def ob_tree_offsets(ctx, res):
     if len(adds) != 2 or len(hdr) != 1 or len(itm) != 1 or len(recs) != 1 or len(loops) != 1:
         okc, why = False, "expected exactly: one `+= NODEHEADER_SIZE` per node, one `+= NON_LEAFNODE_SIZE` per child in one loop over the children, one recursive call"
     else:
-        idx = {_sqo(up(strip(a_["l"])["index"])) for a_ in adds}
+        idx = {_sqo(upn(co, strip(a_["l"])["index"])) for a_ in adds}      # `let below = level - 1; offsets[below]` reads as level-1
         lv = [nm for nm, ty in co.params if ty == "usize"]
         if len(lv) != 1 or idx != {"%s-1" % lv[0]}:
             okc, why = False, "a node on level L is accounted in slot L - 1; slots used: %s" % sorted(idx)
         elif inside(hdr[0], loops[0]) or not inside(itm[0], loops[0]) or not inside(recs[0], loops[0]):
             okc, why = False, "the node header is counted once per node (outside the child loop), the item and the recursion once per child (inside it)"
         else:
-            ra = [_sqo(up(x)) for x in recs[0]["args"]]
+            ra = [_sqo(upn(co, x)) for x in recs[0]["args"]]
             child = up(loops[0]["pat"])
             if ra[1] not in ("&%s.children" % child, "%s.children" % child) or ra[2] != "%s-1" % lv[0]:
                 okc, why = False, "the recursion must descend into each child's children one level down; got %s" % ra
